@@ -158,8 +158,8 @@ theorem pad_pages (m : List Seg) (hn : Norm m) (f : List UInt8) (h : post m = .o
   · intro t
     exact s2 (fun c => t (ht.mp c))
 
-/-- C18.a'  Corollary in the words of the property: every program byte is read back at its address (unless
-it is … it cannot be: the checksum range of a boot-sector program is free, `boot_crc_refuses`). -/
+/-- C18.a'  Corollary in the words of the property: every program byte is read back at its address. (A program
+byte never competes with the checksum word: a file is produced only when 0x100000FC..FF is free, `boot_crc_refuses`.) -/
 theorem pad_pages_bytes (m : List Seg) (hn : Norm m) (f : List UInt8) (h : post m = .ok f) :
     ∃ bs, read f = some bs ∧ ∀ x v, lookup m x = some v → image bs x = some v := by
   obtain ⟨bs, hr, hx⟩ := pad_pages m hn f h
